@@ -119,8 +119,14 @@ def build(tier, seed):
                        handler_script(route, method, wobj),
                        common.handler_names(wobj))
     leafs.add(chk, ['consumer.delete'])
+    # an existing consumer named by a successful write takes the requested
+    # project, user and consumer type (inductive proof of the real loop,
+    # shared with C11)
+    import C11
+    chk.script('update_consumers', C11.script_update_consumers,
+               ['placement/handlers/util.py:update_consumers'])
     chk.keep_prefixes = ('C12.', 'EC.created_flag', 'EC.new_generation_zero',
-                         'leaf.', 'typestate.', 'H.', 'frame.')
+                         'leaf.', 'typestate.', 'H.', 'frame.', 'C11.')
     chk.replayer('', replay_c12)
     chk.fallback('B4.c12.sequences', lambda: replay_c12(None),
                  'request sequences (create, empty write for unknown consumer, '
